@@ -13,6 +13,73 @@ from harness.common import Check, seed, machinery_failure
 from checks.ledger import judge
 
 
+def bulk_download_stage(chk, quick, pid):
+    """An alternative history on the real genesis delivered to a node as answers to its block requests (the bulk-download path, which validates
+    only some heights): one block per checkpointed height (heights are self-declared below the horizon), each with an id that is not the
+    checkpoint's, in order, through all checkpointed heights; with the real constants.  No alternative history can pass a checkpoint: when the
+    peer is through, none of those blocks is part of the node's chain state or of its store.  Judged by TLC (TraceFacts)."""
+    from harness import fakenet, netmsg
+    sk.restore_cfg()
+    import skepticoin.consensus as c
+    import skepticoin.networking.messages as M
+    from skepticoin.genesis import genesis_block_data
+    from skepticoin.datatypes import Block, BlockHeader, BlockSummary, PowEvidence
+    from skepticoin.coinstate import CoinState
+    from skepticoin.signing import SECP256k1PublicKey
+    from skepticoin.humans import computer
+    g = Block.deserialize(genesis_block_data)
+    heights = sorted(h for h in c.KNOWN_HASHES if 0 < h <= c.MAX_KNOWN_HASH_HEIGHT)
+    if len(heights) < 100:
+        return machinery_failure(pid, "only %d checkpointed heights" % len(heights))
+    now = g.timestamp + 10 ** 7
+    clock = fakenet.Clock(now)
+    node = fakenet.Node(CoinState.empty().add_block_no_validation(g), g, clock=clock)
+    facts = []
+    try:
+        node.connect("p", host="10.0.0.2", port=5000, direction="OUTGOING", their_port=2412, nonce=55)
+        node.take_sent("p")
+        pk = SECP256k1PublicKey(b"\x09" * 64)
+        prev, alt = g, []
+        mid = 5000
+        for H in heights:
+            cb = c.construct_coinbase_transaction(H, [], {}, b"alt", pk)
+            nonce = 0
+            while True:
+                summ = BlockSummary(H, prev.hash(), c.calc_merkle_root_hash([cb]), prev.timestamp + 1, b"\xff" * 32, nonce)
+                b = Block(BlockHeader(summ, PowEvidence(b"\x00" * 32, b"\x00" * 32, b"\x00" * 32)), [cb])
+                if b.hash() != computer(c.KNOWN_HASHES[H]):
+                    break
+                nonce += 1
+            alt.append(b)
+            prev = b
+            if node.is_open("p"):
+                mid += 1
+                node.use_store()
+                node.deliver("p", netmsg.frame(netmsg.body(M.DataMessage(M.DATA_BLOCK, b), mid, 77, ts=now)))
+        cs = node.chain()
+        in_state = [b.height for b in alt if b.hash() in cs.block_by_hash]
+        try:
+            rows = {b.hash() for b in node.store_rows()}
+        except Exception:
+            rows = set()
+        on_disk = [b.height for b in alt if b.hash() in rows]
+        facts.append({"clause": "C18:alternative_history_passed_a_checkpoint_on_the_bulk_download_path", "holds": not in_state,
+                      "what": "%d blocks with wrong ids at checkpointed heights remain in the chain state (first heights %s)" % (len(in_state), in_state[:5])})
+        facts.append({"clause": "C18:alternative_history_through_checkpoints_was_written_to_the_store", "holds": not on_disk,
+                      "what": "%d such blocks are in the store (first heights %s)" % (len(on_disk), on_disk[:5])})
+        chk.extra["bulk_download_of_an_alternative_history"] = {"checkpointed_heights_offered": len(heights), "left_in_state": len(in_state), "left_in_store": len(on_disk),
+                                                               "escaped": [e_[1][:80] for e_ in node.escaped[:3]]}
+        chk.case(("bulk_alt_history", len(heights)), nontrivial=True)
+    finally:
+        node.close()
+    v, r = tracecheck.run("TraceFacts", facts, {}, ids=[1], workers=1, timeout=300)
+    chk.traces_validated += 1
+    chk.states += r.distinct
+    for (line, clause) in tlc.tagged(r, "FINDING"):
+        chk.violation(clause, {"observed": facts[line - 1]["what"]}, {"clause": clause})
+    return 0
+
+
 def run(pid, tier, replay=None):
     chk = Check(pid, tier)
     quick = tier != "thorough"
@@ -334,5 +401,8 @@ def run(pid, tier, replay=None):
         c.scrypt = real_scrypt_fn
     chk.extra["rule"] = ("every one of the %d checkpointed heights with a right-id and a wrong-id candidate (block objects carrying that id), non-checkpointed heights below/above the "
                          "horizon; genesis + %d recorded real blocks with the real scrypt" % (len(heights), len(names)))
-    chk.assumptions.append("scope as in the property: the validator's checkpoint rule; during bulk download the node validates only every 10,000th block (by design, not consulted there)")
+    chk.assumptions.append("the validator's checkpoint rule is probed at every checkpointed height; on the bulk-download path the node validates only every 10,000th block by design, so an alternative history is judged when the peer is through with it (bulk_download_stage)")
+    rc_ = bulk_download_stage(chk, quick, pid)
+    if rc_:
+        return rc_
     return chk.finish()
